@@ -252,270 +252,136 @@ func (fr *frame) concreteBytes(v value, what string) []byte {
 	return out
 }
 
-// jsonEncode appends the JSON text of v (of static type t) to buf.
-func (fr *frame) jsonEncode(buf *bytes.Buffer, v value, t types.Type, addressable bool, addr *value) {
-	// Marshaler / TextMarshaler on the value type, or on the pointer type when addressable
-	if _, isIface := t.Underlying().(*types.Interface); !isIface {
-		isNilPtr := false
-		if p, ok := v.(*value); ok && p == nil {
-			if _, isPtr := t.Underlying().(*types.Pointer); isPtr {
-				isNilPtr = true
-			}
-		}
-		if !isNilPtr {
-			recvT, recvV := t, v
-			m := fr.hasMethod(t, "MarshalJSON", 0, 2)
-			if m == nil && addressable && addr != nil {
-				if m = fr.hasMethod(types.NewPointer(t), "MarshalJSON", 0, 2); m != nil {
-					recvT, recvV = types.NewPointer(t), addr
-				}
-			}
-			if m != nil {
-				_ = recvT
-				r := call(fr.p, fr, token.NoPos, m, []value{recvV}).(tuple)
-				if err := r[1].(iface); err.t != nil {
-					panic(jsonEncErr{"json: error calling MarshalJSON for type " + t.String()})
-				}
-				raw := fr.concreteBytes(r[0], "MarshalJSON result")
-				var cb bytes.Buffer
-				if err := json.Compact(&cb, raw); err != nil {
-					panic(jsonEncErr{"json: error calling MarshalJSON for type " + t.String() + ": " + err.Error()})
-				}
-				buf.Write(cb.Bytes())
-				return
-			}
-			tm := fr.hasMethod(t, "MarshalText", 0, 2)
-			recvV = v
-			if tm == nil && addressable && addr != nil {
-				if tm = fr.hasMethod(types.NewPointer(t), "MarshalText", 0, 2); tm != nil {
-					recvV = addr
-				}
-			}
-			if tm != nil {
-				r := call(fr.p, fr, token.NoPos, tm, []value{recvV}).(tuple)
-				if err := r[1].(iface); err.t != nil {
-					panic(jsonEncErr{"json: error calling MarshalText for type " + t.String()})
-				}
-				txt := fr.concreteBytes(r[0], "MarshalText result")
-				b, _ := json.Marshal(string(txt))
-				buf.Write(b)
-				return
-			}
+// ---------------------------------------------------------------- JSON value tree
+
+// jnode is a JSON value whose leaves may be symbolic scalars.
+type jnode struct {
+	kind   byte // 'o' object, 'a' array, 's' string, 'n' number, 'b' bool, 'z' null
+	names  []string
+	vals   []*jnode
+	leaf   value  // 's': string|sym, 'b': bool|sym, 'n': int/uint/float native value or sym
+	numTxt string // 'n' parsed from text: the literal
+	raw    []byte // original text when parsed from concrete JSON
+}
+
+func (n *jnode) symbolic() bool {
+	switch n.kind {
+	case 's', 'b', 'n':
+		return isSym(n.leaf)
+	}
+	for _, v := range n.vals {
+		if v.symbolic() {
+			return true
 		}
 	}
-	switch u := t.Underlying().(type) {
-	case *types.Basic:
-		switch u.Kind() {
-		case types.Bool:
-			if fr.concreteBool(v) {
-				buf.WriteString("true")
-			} else {
-				buf.WriteString("false")
-			}
-		case types.String:
-			b, _ := json.Marshal(fr.concreteString(v))
+	return false
+}
+
+// render writes the JSON text of a tree without symbolic leaves.
+func (n *jnode) render(buf *bytes.Buffer) {
+	switch n.kind {
+	case 'z':
+		buf.WriteString("null")
+	case 'b':
+		if n.leaf.(bool) {
+			buf.WriteString("true")
+		} else {
+			buf.WriteString("false")
+		}
+	case 's':
+		b, _ := json.Marshal(n.leaf.(string))
+		buf.Write(b)
+	case 'n':
+		if n.numTxt != "" {
+			buf.WriteString(n.numTxt)
+			return
+		}
+		switch x := n.leaf.(type) {
+		case float32:
+			b, _ := json.Marshal(x)
 			buf.Write(b)
-		case types.Float32, types.Float64:
-			var f float64
-			switch x := v.(type) {
-			case float32:
-				f = float64(x)
-			case float64:
-				f = x
-			}
-			if math.IsInf(f, 0) || math.IsNaN(f) {
-				panic(jsonEncErr{"json: unsupported value"})
-			}
-			b, _ := json.Marshal(f)
+		case float64:
+			b, _ := json.Marshal(x)
 			buf.Write(b)
+		case uint, uint8, uint16, uint32, uint64, uintptr:
+			buf.WriteString(strconv.FormatUint(uint64(asInt64(x)), 10))
 		default:
-			if kindSigned(u.Kind()) {
-				buf.WriteString(strconv.FormatInt(fr.concreteInt(v), 10))
-			} else if kindWidth(u.Kind()) > 0 {
-				buf.WriteString(strconv.FormatUint(uint64(fr.concreteInt(v))&widthMask(kindWidth(u.Kind())), 10))
-			} else {
-				panic(jsonEncErr{"json: unsupported type: " + t.String()})
-			}
+			buf.WriteString(strconv.FormatInt(asInt64(x), 10))
 		}
-	case *types.Pointer:
-		p := v.(*value)
-		if p == nil {
-			buf.WriteString("null")
-			return
-		}
-		fr.jsonEncode(buf, load(u.Elem(), p), u.Elem(), true, p)
-	case *types.Interface:
-		i := v.(iface)
-		if i.t == nil {
-			buf.WriteString("null")
-			return
-		}
-		fr.jsonEncode(buf, i.v, i.t, false, nil)
-	case *types.Struct:
-		buf.WriteByte('{')
-		first := true
-		for _, f := range jsonFields(u) {
-			fv, ok := fieldByIndex(v, t, f.index)
-			if !ok {
-				continue
-			}
-			if f.omitEmpty && fr.jsonIsEmpty(fv, f.typ) {
-				continue
-			}
-			if !first {
-				buf.WriteByte(',')
-			}
-			first = false
-			kb, _ := json.Marshal(f.name)
-			buf.Write(kb)
-			buf.WriteByte(':')
-			var faddr *value
-			if addressable && addr != nil && len(f.index) == 1 {
-				faddr = &(*addr).(structure)[f.index[0]]
-			}
-			if f.quoted {
-				var inner bytes.Buffer
-				fr.jsonEncode(&inner, fv, f.typ, faddr != nil, faddr)
-				if k := basicKind(f.typ); k != types.Invalid {
-					qb, _ := json.Marshal(inner.String())
-					buf.Write(qb)
-				} else {
-					buf.Write(inner.Bytes())
-				}
-			} else {
-				fr.jsonEncode(buf, fv, f.typ, faddr != nil, faddr)
-			}
-		}
-		buf.WriteByte('}')
-	case *types.Slice:
-		sl := v.([]value)
-		if sl == nil {
-			buf.WriteString("null")
-			return
-		}
-		if b, ok := u.Elem().Underlying().(*types.Basic); ok && b.Kind() == types.Uint8 &&
-			fr.hasMethod(u.Elem(), "MarshalJSON", 0, 2) == nil && fr.hasMethod(u.Elem(), "MarshalText", 0, 2) == nil {
-			raw := fr.concreteBytes(sl, "[]byte")
-			qb, _ := json.Marshal(base64.StdEncoding.EncodeToString(raw))
-			buf.Write(qb)
-			return
-		}
+	case 'a':
 		buf.WriteByte('[')
-		for i := range sl {
+		for i, v := range n.vals {
 			if i > 0 {
 				buf.WriteByte(',')
 			}
-			fr.jsonEncode(buf, sl[i], u.Elem(), true, &sl[i])
+			v.render(buf)
 		}
 		buf.WriteByte(']')
-	case *types.Array:
-		arr := v.(array)
-		buf.WriteByte('[')
-		for i := range arr {
-			if i > 0 {
-				buf.WriteByte(',')
-			}
-			fr.jsonEncode(buf, arr[i], u.Elem(), false, nil)
-		}
-		buf.WriteByte(']')
-	case *types.Map:
-		m := v.(*omap)
-		if m == nil {
-			buf.WriteString("null")
-			return
-		}
-		type kv struct {
-			k string
-			v value
-		}
-		var kvs []kv
-		for _, e := range m.ents {
-			if e.dead {
-				continue
-			}
-			var ks string
-			switch k := e.k.(type) {
-			case string:
-				ks = k
-			default:
-				if kindWidth(kindOfValue(e.k)) > 0 {
-					ks = strconv.FormatInt(asInt64(e.k), 10)
-				} else {
-					panic(jsonEncErr{"json: unsupported type: " + t.String()})
-				}
-			}
-			kvs = append(kvs, kv{ks, e.v})
-		}
-		sort.Slice(kvs, func(i, j int) bool { return kvs[i].k < kvs[j].k })
+	case 'o':
 		buf.WriteByte('{')
-		for i, e := range kvs {
+		for i, v := range n.vals {
 			if i > 0 {
 				buf.WriteByte(',')
 			}
-			kb, _ := json.Marshal(e.k)
+			kb, _ := json.Marshal(n.names[i])
 			buf.Write(kb)
 			buf.WriteByte(':')
-			fr.jsonEncode(buf, e.v, u.Elem(), false, nil)
+			v.render(buf)
 		}
 		buf.WriteByte('}')
-	default:
-		panic(jsonEncErr{"json: unsupported type: " + t.String()})
 	}
 }
 
-func widthMask(w int) uint64 {
-	if w >= 64 {
-		return ^uint64(0)
-	}
-	return 1<<uint(w) - 1
-}
-
-// ---------------------------------------------------------------- decoding
-
-type jsonDecState struct {
-	firstErr string
-}
-
-var emptyIface = types.NewInterfaceType(nil, nil)
-
-func (fr *frame) jsonGeneric(raw json.RawMessage) value {
+// parseJSON turns concrete JSON text into a tree (keeping raw text per node).
+func parseJSON(raw []byte) (*jnode, error) {
 	raw = bytes.TrimSpace(raw)
 	if len(raw) == 0 {
-		return iface{}
+		return nil, fmt.Errorf("unexpected end of JSON input")
 	}
+	n := &jnode{raw: raw}
 	switch raw[0] {
 	case 'n':
-		return iface{}
-	case 't':
-		return iface{t: types.Typ[types.Bool], v: true}
-	case 'f':
-		return iface{t: types.Typ[types.Bool], v: false}
+		n.kind = 'z'
+	case 't', 'f':
+		n.kind, n.leaf = 'b', raw[0] == 't'
 	case '"':
 		var s string
-		json.Unmarshal(raw, &s)
-		return iface{t: types.Typ[types.String], v: s}
+		if err := json.Unmarshal(raw, &s); err != nil {
+			return nil, err
+		}
+		n.kind, n.leaf = 's', s
 	case '[':
 		var elems []json.RawMessage
-		json.Unmarshal(raw, &elems)
-		out := make([]value, len(elems))
-		for i, e := range elems {
-			out[i] = fr.jsonGeneric(e)
+		if err := json.Unmarshal(raw, &elems); err != nil {
+			return nil, err
 		}
-		return iface{t: types.NewSlice(emptyIface), v: out}
+		n.kind = 'a'
+		n.vals = []*jnode{}
+		for _, e := range elems {
+			c, err := parseJSON(e)
+			if err != nil {
+				return nil, err
+			}
+			n.vals = append(n.vals, c)
+		}
 	case '{':
 		var obj map[string]json.RawMessage
-		json.Unmarshal(raw, &obj)
-		keys := orderedKeys(raw)
-		m := newOmap()
-		for _, k := range keys {
-			m.set(k, fr.jsonGeneric(obj[k]))
+		if err := json.Unmarshal(raw, &obj); err != nil {
+			return nil, err
 		}
-		return iface{t: types.NewMap(types.Typ[types.String], emptyIface), v: m}
+		n.kind = 'o'
+		for _, k := range orderedKeys(raw) {
+			c, err := parseJSON(obj[k])
+			if err != nil {
+				return nil, err
+			}
+			n.names = append(n.names, k)
+			n.vals = append(n.vals, c)
+		}
 	default:
-		var f float64
-		json.Unmarshal(raw, &f)
-		return iface{t: types.Typ[types.Float64], v: f}
+		n.kind, n.numTxt = 'n', string(raw)
 	}
+	return n, nil
 }
 
 // orderedKeys returns the keys of a JSON object in document order (last occurrence wins in value).
@@ -544,19 +410,309 @@ func orderedKeys(raw []byte) []string {
 	return keys
 }
 
+const jsonTokenPrefix = opaqueMark + "JSON#"
+
+func (p *Path) jsonTable() map[string]*jnode {
+	t, _ := p.sideTable["json"].(map[string]*jnode)
+	if t == nil {
+		t = map[string]*jnode{}
+		p.sideTable["json"] = t
+	}
+	return t
+}
+
+// jsonText renders a tree: real JSON text if concrete, else a unique opaque token registered in the
+// path's side table (abstract JSON: the text of a document with symbolic leaves is never inspected).
+func (fr *frame) jsonText(n *jnode) []byte {
+	if !n.symbolic() {
+		var buf bytes.Buffer
+		n.render(&buf)
+		return buf.Bytes()
+	}
+	tab := fr.p.jsonTable()
+	tok := fmt.Sprintf("%s%d%s", jsonTokenPrefix, len(tab), opaqueMark)
+	tab[tok] = n
+	return []byte(tok)
+}
+
+// jsonTree returns the tree for a JSON text (token or real text).
+func (fr *frame) jsonTree(data []byte) (*jnode, error) {
+	if bytes.HasPrefix(data, []byte(jsonTokenPrefix)) {
+		if n, ok := fr.p.jsonTable()[string(data)]; ok {
+			return n, nil
+		}
+		fr.unmodelled("JSON token text was modified before decoding")
+	}
+	if bytes.Contains(data, []byte(opaqueMark)) {
+		fr.unmodelled("JSON text embeds a document with symbolic leaves")
+	}
+	if !json.Valid(data) {
+		var probe interface{}
+		err := json.Unmarshal(data, &probe)
+		if err == nil {
+			err = fmt.Errorf("invalid JSON")
+		}
+		return nil, err
+	}
+	return parseJSON(data)
+}
+
+// ---------------------------------------------------------------- encoding
+
+// jsonEncode builds the JSON tree of v (static type t).
+func (fr *frame) jsonEncode(v value, t types.Type, addressable bool, addr *value) *jnode {
+	if _, isIface := t.Underlying().(*types.Interface); !isIface {
+		isNilPtr := false
+		if p, ok := v.(*value); ok && p == nil {
+			if _, isPtr := t.Underlying().(*types.Pointer); isPtr {
+				isNilPtr = true
+			}
+		}
+		if !isNilPtr {
+			recvV := v
+			m := fr.hasMethod(t, "MarshalJSON", 0, 2)
+			if m == nil && addressable && addr != nil {
+				if m = fr.hasMethod(types.NewPointer(t), "MarshalJSON", 0, 2); m != nil {
+					recvV = addr
+				}
+			}
+			if m != nil {
+				r := call(fr.p, fr, token.NoPos, m, []value{recvV}).(tuple)
+				if err := r[1].(iface); err.t != nil {
+					panic(jsonEncErr{"json: error calling MarshalJSON for type " + t.String()})
+				}
+				raw := fr.concreteBytes(r[0], "MarshalJSON result")
+				n, err := fr.jsonTree(raw)
+				if err != nil {
+					panic(jsonEncErr{"json: error calling MarshalJSON for type " + t.String() + ": " + err.Error()})
+				}
+				return n
+			}
+			tm := fr.hasMethod(t, "MarshalText", 0, 2)
+			recvV = v
+			if tm == nil && addressable && addr != nil {
+				if tm = fr.hasMethod(types.NewPointer(t), "MarshalText", 0, 2); tm != nil {
+					recvV = addr
+				}
+			}
+			if tm != nil {
+				r := call(fr.p, fr, token.NoPos, tm, []value{recvV}).(tuple)
+				if err := r[1].(iface); err.t != nil {
+					panic(jsonEncErr{"json: error calling MarshalText for type " + t.String()})
+				}
+				return &jnode{kind: 's', leaf: string(fr.concreteBytes(r[0], "MarshalText result"))}
+			}
+		}
+	}
+	switch u := t.Underlying().(type) {
+	case *types.Basic:
+		switch {
+		case u.Kind() == types.Bool:
+			return &jnode{kind: 'b', leaf: v}
+		case u.Kind() == types.String:
+			if s, ok := v.(string); ok && hasOpaque(s) {
+				fr.unmodelled("JSON encoding of a string whose text was not computed")
+			}
+			return &jnode{kind: 's', leaf: v}
+		case u.Kind() == types.Float32 || u.Kind() == types.Float64:
+			f, _ := widen(v).(float64)
+			if math.IsInf(f, 0) || math.IsNaN(f) {
+				panic(jsonEncErr{"json: unsupported value"})
+			}
+			return &jnode{kind: 'n', leaf: v}
+		case kindWidth(u.Kind()) > 0:
+			return &jnode{kind: 'n', leaf: v}
+		}
+		panic(jsonEncErr{"json: unsupported type: " + t.String()})
+	case *types.Pointer:
+		p := v.(*value)
+		if p == nil {
+			return &jnode{kind: 'z'}
+		}
+		return fr.jsonEncode(load(u.Elem(), p), u.Elem(), true, p)
+	case *types.Interface:
+		i := v.(iface)
+		if i.t == nil {
+			return &jnode{kind: 'z'}
+		}
+		return fr.jsonEncode(i.v, i.t, false, nil)
+	case *types.Struct:
+		n := &jnode{kind: 'o'}
+		for _, f := range jsonFields(u) {
+			fv, ok := fieldByIndex(v, t, f.index)
+			if !ok {
+				continue
+			}
+			if f.omitEmpty && fr.jsonIsEmpty(fv, f.typ) {
+				continue
+			}
+			var faddr *value
+			if addressable && addr != nil && len(f.index) == 1 {
+				faddr = &(*addr).(structure)[f.index[0]]
+			}
+			c := fr.jsonEncode(fv, f.typ, faddr != nil, faddr)
+			if f.quoted && (c.kind == 'n' || c.kind == 'b' || c.kind == 's') {
+				if c.symbolic() {
+					fr.unmodelled("json ,string option on a symbolic value")
+				}
+				var inner bytes.Buffer
+				c.render(&inner)
+				c = &jnode{kind: 's', leaf: inner.String()}
+			}
+			n.names = append(n.names, f.name)
+			n.vals = append(n.vals, c)
+		}
+		return n
+	case *types.Slice:
+		sl := v.([]value)
+		if sl == nil {
+			return &jnode{kind: 'z'}
+		}
+		if b, ok := u.Elem().Underlying().(*types.Basic); ok && b.Kind() == types.Uint8 &&
+			fr.hasMethod(u.Elem(), "MarshalJSON", 0, 2) == nil && fr.hasMethod(u.Elem(), "MarshalText", 0, 2) == nil {
+			raw := fr.concreteBytes(sl, "[]byte")
+			return &jnode{kind: 's', leaf: base64.StdEncoding.EncodeToString(raw)}
+		}
+		n := &jnode{kind: 'a', vals: []*jnode{}}
+		for i := range sl {
+			n.vals = append(n.vals, fr.jsonEncode(sl[i], u.Elem(), true, &sl[i]))
+		}
+		return n
+	case *types.Array:
+		arr := v.(array)
+		n := &jnode{kind: 'a', vals: []*jnode{}}
+		for i := range arr {
+			n.vals = append(n.vals, fr.jsonEncode(arr[i], u.Elem(), false, nil))
+		}
+		return n
+	case *types.Map:
+		m := v.(*omap)
+		if m == nil {
+			return &jnode{kind: 'z'}
+		}
+		type kv struct {
+			k string
+			v value
+		}
+		var kvs []kv
+		for _, e := range m.ents {
+			if e.dead {
+				continue
+			}
+			var ks string
+			switch k := e.k.(type) {
+			case string:
+				ks = k
+			default:
+				if kindWidth(kindOfValue(e.k)) > 0 {
+					ks = strconv.FormatInt(asInt64(e.k), 10)
+				} else {
+					panic(jsonEncErr{"json: unsupported type: " + t.String()})
+				}
+			}
+			kvs = append(kvs, kv{ks, e.v})
+		}
+		sort.Slice(kvs, func(i, j int) bool { return kvs[i].k < kvs[j].k })
+		n := &jnode{kind: 'o'}
+		for _, e := range kvs {
+			n.names = append(n.names, e.k)
+			n.vals = append(n.vals, fr.jsonEncode(e.v, u.Elem(), false, nil))
+		}
+		return n
+	}
+	panic(jsonEncErr{"json: unsupported type: " + t.String()})
+}
+
+func widthMask(w int) uint64 {
+	if w >= 64 {
+		return ^uint64(0)
+	}
+	return 1<<uint(w) - 1
+}
+
+// ---------------------------------------------------------------- decoding
+
+type jsonDecState struct {
+	firstErr string
+}
+
+var emptyIface = types.NewInterfaceType(nil, nil)
+
+func (fr *frame) jsonGeneric(n *jnode) value {
+	switch n.kind {
+	case 'z':
+		return iface{}
+	case 'b':
+		return iface{t: types.Typ[types.Bool], v: n.leaf}
+	case 's':
+		return iface{t: types.Typ[types.String], v: n.leaf}
+	case 'n':
+		if n.numTxt != "" {
+			f, _ := strconv.ParseFloat(n.numTxt, 64)
+			return iface{t: types.Typ[types.Float64], v: f}
+		}
+		if isSym(n.leaf) {
+			fr.unmodelled("symbolic number decoded into interface{}")
+		}
+		switch x := n.leaf.(type) {
+		case float64:
+			return iface{t: types.Typ[types.Float64], v: x}
+		case float32:
+			return iface{t: types.Typ[types.Float64], v: float64(x)}
+		}
+		return iface{t: types.Typ[types.Float64], v: float64(asInt64(n.leaf))}
+	case 'a':
+		out := make([]value, len(n.vals))
+		for i, e := range n.vals {
+			out[i] = fr.jsonGeneric(e)
+		}
+		return iface{t: types.NewSlice(emptyIface), v: out}
+	case 'o':
+		m := newOmap()
+		for i, k := range n.names {
+			m.set(k, fr.jsonGeneric(n.vals[i]))
+		}
+		return iface{t: types.NewMap(types.Typ[types.String], emptyIface), v: m}
+	}
+	panic("jsonGeneric: bad node")
+}
+
 func (ds *jsonDecState) typeErr(what string, t types.Type) {
 	if ds.firstErr == "" {
 		ds.firstErr = "json: cannot unmarshal " + what + " into Go value of type " + t.String()
 	}
 }
 
-// jsonDecode stores the JSON value raw into *addr of static type t.
-func (fr *frame) jsonDecode(ds *jsonDecState, raw json.RawMessage, t types.Type, addr *value) {
-	raw = bytes.TrimSpace(raw)
-	isNull := bytes.Equal(raw, []byte("null"))
-	// pointers: null => nil; otherwise allocate and descend
+func (ds *jsonDecState) methodErr(fr *frame, r iface, what string) {
+	if r.t != nil && ds.firstErr == "" {
+		msg, _ := fr.callStringMethod(r, "Error")
+		ds.firstErr, _ = msg.(string)
+		if ds.firstErr == "" {
+			ds.firstErr = what + " error"
+		}
+	}
+}
+
+func (n *jnode) kindName() string {
+	switch n.kind {
+	case 's':
+		return "string"
+	case 'o':
+		return "object"
+	case 'a':
+		return "array"
+	case 'b':
+		return "bool"
+	case 'z':
+		return "null"
+	}
+	return "number"
+}
+
+// jsonDecode stores the JSON value n into *addr of static type t.
+func (fr *frame) jsonDecode(ds *jsonDecState, n *jnode, t types.Type, addr *value) {
+	isNull := n.kind == 'z'
 	if p, ok := t.Underlying().(*types.Pointer); ok {
-		// Unmarshaler on the pointer type itself is reached after allocation
 		if isNull {
 			*addr = (*value)(nil)
 			return
@@ -567,38 +723,25 @@ func (fr *frame) jsonDecode(ds *jsonDecState, raw json.RawMessage, t types.Type,
 			pv = &cell
 			*addr = pv
 		}
-		fr.jsonDecode(ds, raw, p.Elem(), pv)
+		fr.jsonDecode(ds, n, p.Elem(), pv)
 		return
 	}
 	if _, isIface := t.Underlying().(*types.Interface); !isIface {
 		if m := fr.hasMethod(types.NewPointer(t), "UnmarshalJSON", 1, 1); m != nil {
-			r := call(fr.p, fr, token.NoPos, m, []value{addr, bytesVal(raw)}).(iface)
-			if r.t != nil && ds.firstErr == "" {
-				msg, _ := fr.callStringMethod(r, "Error")
-				ds.firstErr, _ = msg.(string)
-				if ds.firstErr == "" {
-					ds.firstErr = "UnmarshalJSON error"
-				}
+			raw := n.raw
+			if raw == nil {
+				raw = fr.jsonText(n)
 			}
+			r := call(fr.p, fr, token.NoPos, m, []value{addr, bytesVal(raw)}).(iface)
+			ds.methodErr(fr, r, "UnmarshalJSON")
 			return
 		}
 		if isNull {
 			return // null into a non-pointer: no effect
 		}
-		if m := fr.hasMethod(types.NewPointer(t), "UnmarshalText", 1, 1); m != nil && len(raw) > 0 && raw[0] == '"' {
-			var s string
-			if err := json.Unmarshal(raw, &s); err != nil {
-				ds.typeErr("string", t)
-				return
-			}
-			r := call(fr.p, fr, token.NoPos, m, []value{addr, bytesVal([]byte(s))}).(iface)
-			if r.t != nil && ds.firstErr == "" {
-				msg, _ := fr.callStringMethod(r, "Error")
-				ds.firstErr, _ = msg.(string)
-				if ds.firstErr == "" {
-					ds.firstErr = "UnmarshalText error"
-				}
-			}
+		if m := fr.hasMethod(types.NewPointer(t), "UnmarshalText", 1, 1); m != nil && n.kind == 's' {
+			r := call(fr.p, fr, token.NoPos, m, []value{addr, bytesVal([]byte(fr.concreteString(n.leaf)))}).(iface)
+			ds.methodErr(fr, r, "UnmarshalText")
 			return
 		}
 	}
@@ -613,50 +756,39 @@ func (fr *frame) jsonDecode(ds *jsonDecState, raw json.RawMessage, t types.Type,
 		}
 		return
 	}
-	if len(raw) == 0 {
-		return
-	}
-	kindName := func() string {
-		switch raw[0] {
-		case '"':
-			return "string"
-		case '{':
-			return "object"
-		case '[':
-			return "array"
-		case 't', 'f':
-			return "bool"
-		}
-		return "number"
-	}
 	switch u := t.Underlying().(type) {
 	case *types.Interface:
 		if u.NumMethods() == 0 {
-			*addr = fr.jsonGeneric(raw)
+			*addr = fr.jsonGeneric(n)
 		} else {
-			ds.typeErr(kindName(), t)
+			ds.typeErr(n.kindName(), t)
 		}
 	case *types.Basic:
 		switch {
 		case u.Kind() == types.Bool:
-			if raw[0] != 't' && raw[0] != 'f' {
-				ds.typeErr(kindName(), t)
+			if n.kind != 'b' {
+				ds.typeErr(n.kindName(), t)
 				return
 			}
-			*addr = raw[0] == 't'
+			*addr = n.leaf
 		case u.Kind() == types.String:
-			if raw[0] != '"' {
-				ds.typeErr(kindName(), t)
+			if n.kind != 's' {
+				ds.typeErr(n.kindName(), t)
 				return
 			}
-			var s string
-			json.Unmarshal(raw, &s)
-			*addr = s
+			*addr = n.leaf
 		case u.Kind() == types.Float64 || u.Kind() == types.Float32:
-			var f float64
-			if raw[0] == '"' || json.Unmarshal(raw, &f) != nil {
-				ds.typeErr(kindName(), t)
+			if n.kind != 'n' {
+				ds.typeErr(n.kindName(), t)
 				return
+			}
+			var f float64
+			if n.numTxt != "" {
+				f, _ = strconv.ParseFloat(n.numTxt, 64)
+			} else if x, ok := widen(n.leaf).(float64); ok {
+				f = x
+			} else {
+				f = float64(asInt64(n.leaf))
 			}
 			if u.Kind() == types.Float32 {
 				*addr = float32(f)
@@ -664,41 +796,55 @@ func (fr *frame) jsonDecode(ds *jsonDecState, raw json.RawMessage, t types.Type,
 				*addr = f
 			}
 		case kindWidth(u.Kind()) > 0:
-			if raw[0] == '"' || raw[0] == '{' || raw[0] == '[' || raw[0] == 't' || raw[0] == 'f' {
-				ds.typeErr(kindName(), t)
+			if n.kind != 'n' {
+				ds.typeErr(n.kindName(), t)
 				return
 			}
 			w := kindWidth(u.Kind())
+			if n.numTxt == "" {
+				// number that never left the engine: convert between integer kinds
+				if s, ok := n.leaf.(sym); ok {
+					if kindWidth(s.K) != w {
+						fr.unmodelled("symbolic JSON number decoded into an integer of another width")
+					}
+					*addr = sym{s.T, u.Kind()}
+					return
+				}
+				if _, isF := widen(n.leaf).(float64); isF {
+					ds.typeErr("number", t)
+					return
+				}
+				n = &jnode{kind: 'n', numTxt: func() string {
+					var b bytes.Buffer
+					n.render(&b)
+					return b.String()
+				}()}
+			}
 			if kindSigned(u.Kind()) {
-				n, err := strconv.ParseInt(string(raw), 10, w)
+				x, err := strconv.ParseInt(n.numTxt, 10, w)
 				if err != nil {
-					ds.typeErr("number "+string(raw), t)
+					ds.typeErr("number "+n.numTxt, t)
 					return
 				}
-				*addr = convC(t, types.Typ[types.Int64], n)
+				*addr = convC(t, types.Typ[types.Int64], x)
 			} else {
-				n, err := strconv.ParseUint(string(raw), 10, w)
+				x, err := strconv.ParseUint(n.numTxt, 10, w)
 				if err != nil {
-					ds.typeErr("number "+string(raw), t)
+					ds.typeErr("number "+n.numTxt, t)
 					return
 				}
-				*addr = convC(t, types.Typ[types.Uint64], n)
+				*addr = convC(t, types.Typ[types.Uint64], x)
 			}
 		default:
-			ds.typeErr(kindName(), t)
+			ds.typeErr(n.kindName(), t)
 		}
 	case *types.Struct:
-		if raw[0] != '{' {
-			ds.typeErr(kindName(), t)
-			return
-		}
-		var obj map[string]json.RawMessage
-		if err := json.Unmarshal(raw, &obj); err != nil {
-			ds.typeErr("object", t)
+		if n.kind != 'o' {
+			ds.typeErr(n.kindName(), t)
 			return
 		}
 		fields := jsonFields(u)
-		for _, k := range orderedKeys(raw) {
+		for ki, k := range n.names {
 			var f *jsonField
 			for i := range fields {
 				if fields[i].name == k {
@@ -717,10 +863,8 @@ func (fr *frame) jsonDecode(ds *jsonDecState, raw json.RawMessage, t types.Type,
 			if f == nil {
 				continue
 			}
-			// walk to the field's address (allocating embedded pointers)
 			cur := addr
 			ct := t
-			okWalk := true
 			for _, i := range f.index {
 				if p, isPtr := ct.Underlying().(*types.Pointer); isPtr {
 					pv := (*cur).(*value)
@@ -736,23 +880,19 @@ func (fr *frame) jsonDecode(ds *jsonDecState, raw json.RawMessage, t types.Type,
 				cur = &(*cur).(structure)[i]
 				ct = st.Field(i).Type()
 			}
-			if !okWalk {
-				continue
-			}
-			val := obj[k]
-			if f.quoted && len(val) > 0 && val[0] == '"' {
-				var s string
-				json.Unmarshal(val, &s)
-				val = json.RawMessage(s)
+			val := n.vals[ki]
+			if f.quoted && val.kind == 's' {
+				inner, err := parseJSON([]byte(fr.concreteString(val.leaf)))
+				if err == nil {
+					val = inner
+				}
 			}
 			fr.jsonDecode(ds, val, f.typ, cur)
 		}
 	case *types.Slice:
-		if raw[0] == '"' {
+		if n.kind == 's' {
 			if b, ok := u.Elem().Underlying().(*types.Basic); ok && b.Kind() == types.Uint8 {
-				var s string
-				json.Unmarshal(raw, &s)
-				dec, err := base64.StdEncoding.DecodeString(s)
+				dec, err := base64.StdEncoding.DecodeString(fr.concreteString(n.leaf))
 				if err != nil {
 					if ds.firstErr == "" {
 						ds.firstErr = err.Error()
@@ -766,44 +906,32 @@ func (fr *frame) jsonDecode(ds *jsonDecState, raw json.RawMessage, t types.Type,
 				return
 			}
 		}
-		if raw[0] != '[' {
-			ds.typeErr(kindName(), t)
+		if n.kind != 'a' {
+			ds.typeErr(n.kindName(), t)
 			return
 		}
-		var elems []json.RawMessage
-		if err := json.Unmarshal(raw, &elems); err != nil {
-			ds.typeErr("array", t)
-			return
-		}
-		out := make([]value, len(elems))
-		for i := range elems {
+		out := make([]value, len(n.vals))
+		for i := range n.vals {
 			out[i] = zero(u.Elem())
-			fr.jsonDecode(ds, elems[i], u.Elem(), &out[i])
+			fr.jsonDecode(ds, n.vals[i], u.Elem(), &out[i])
 		}
 		*addr = out
 	case *types.Array:
-		if raw[0] != '[' {
-			ds.typeErr(kindName(), t)
+		if n.kind != 'a' {
+			ds.typeErr(n.kindName(), t)
 			return
 		}
-		var elems []json.RawMessage
-		json.Unmarshal(raw, &elems)
 		arr := (*addr).(array)
 		for i := range arr {
-			if i < len(elems) {
-				fr.jsonDecode(ds, elems[i], u.Elem(), &arr[i])
+			if i < len(n.vals) {
+				fr.jsonDecode(ds, n.vals[i], u.Elem(), &arr[i])
 			} else {
 				arr[i] = zero(u.Elem())
 			}
 		}
 	case *types.Map:
-		if raw[0] != '{' {
-			ds.typeErr(kindName(), t)
-			return
-		}
-		var obj map[string]json.RawMessage
-		if err := json.Unmarshal(raw, &obj); err != nil {
-			ds.typeErr("object", t)
+		if n.kind != 'o' {
+			ds.typeErr(n.kindName(), t)
 			return
 		}
 		m := (*addr).(*omap)
@@ -811,18 +939,18 @@ func (fr *frame) jsonDecode(ds *jsonDecState, raw json.RawMessage, t types.Type,
 			m = newOmap()
 			*addr = m
 		}
-		for _, k := range orderedKeys(raw) {
+		for ki, k := range n.names {
 			var key value
 			switch {
 			case basicKind(u.Key()) == types.String:
 				key = k
 			case kindWidth(basicKind(u.Key())) > 0:
-				n, err := strconv.ParseInt(k, 10, 64)
+				x, err := strconv.ParseInt(k, 10, 64)
 				if err != nil {
 					ds.typeErr("number "+k, u.Key())
 					continue
 				}
-				key = convC(u.Key(), types.Typ[types.Int64], n)
+				key = convC(u.Key(), types.Typ[types.Int64], x)
 			default:
 				ds.typeErr("object key", u.Key())
 				continue
@@ -831,11 +959,11 @@ func (fr *frame) jsonDecode(ds *jsonDecState, raw json.RawMessage, t types.Type,
 			if old, ok := m.get(key); ok {
 				cell = copyVal(old)
 			}
-			fr.jsonDecode(ds, obj[k], u.Elem(), &cell)
+			fr.jsonDecode(ds, n.vals[ki], u.Elem(), &cell)
 			m.set(key, cell)
 		}
 	default:
-		ds.typeErr(kindName(), t)
+		ds.typeErr(n.kindName(), t)
 	}
 }
 
@@ -851,42 +979,31 @@ func registerJSONModels(e *Engine) {
 			}
 		}()
 		in := args[0].(iface)
-		var buf bytes.Buffer
-		if in.t == nil {
-			buf.WriteString("null")
-		} else {
-			fr.jsonEncode(&buf, in.v, in.t, false, nil)
+		n := &jnode{kind: 'z'}
+		if in.t != nil {
+			n = fr.jsonEncode(in.v, in.t, false, nil)
 		}
-		return tuple{bytesVal(buf.Bytes()), iface{}}
+		return tuple{bytesVal(fr.jsonText(n)), iface{}}
 	}
 	e.models["encoding/json.Unmarshal"] = func(fr *frame, fn *ssa.Function, args []value) value {
 		data := fr.concreteBytes(args[0], "json text")
 		target := args[1].(iface)
-		if !json.Valid(data) {
-			var probe interface{}
-			err := json.Unmarshal(data, &probe)
-			msg := "invalid JSON"
-			if err != nil {
-				msg = err.Error()
-			}
-			return fr.p.eng.newErrorString(msg)
+		n, err := fr.jsonTree(data)
+		if err != nil {
+			return fr.p.eng.newErrorString(err.Error())
 		}
-		pt, ok := func() (*types.Pointer, bool) {
-			if target.t == nil {
-				return nil, false
-			}
-			p, ok := target.t.Underlying().(*types.Pointer)
-			return p, ok
-		}()
-		if !ok || target.v.(*value) == nil {
+		var pt *types.Pointer
+		if target.t != nil {
+			pt, _ = target.t.Underlying().(*types.Pointer)
+		}
+		if pt == nil || target.v.(*value) == nil {
 			return fr.p.eng.newErrorString("json: Unmarshal(non-pointer or nil)")
 		}
 		ds := &jsonDecState{}
-		fr.jsonDecode(ds, data, pt.Elem(), target.v.(*value))
+		fr.jsonDecode(ds, n, pt.Elem(), target.v.(*value))
 		if ds.firstErr != "" {
 			return fr.p.eng.newErrorString(ds.firstErr)
 		}
 		return iface{}
 	}
-	_ = fmt.Sprint
 }
